@@ -51,6 +51,19 @@ def varr_jobs(tier, elszs=(8, 16)):
     return J
 
 
+def dlist_jobs(tier):
+    J = []
+    for f in ('append', 'prepend', 'insert_before', 'insert_after', 'remove'):
+        J.append(Job('dlist.' + f, 'harness/c19_dlist.c', 'h_' + f, defines=ND, unwind=4, scope=['links'], timeout=300))
+    j = Job('dlist.length_el[bounded<=3 nodes]', 'harness/c19_dlist.c', 'h_length_el', defines=ND, unwind=6, scope=['links'],
+            kind='bounded', bound='lists of at most 3 nodes', timeout=300)
+    J.append(j)
+    for j in J:
+        j.count_funcs = {'DLIST_node_t_append', 'DLIST_node_t_prepend', 'DLIST_node_t_insert_before', 'DLIST_node_t_insert_after',
+                         'DLIST_node_t_remove', 'DLIST_node_t_length', 'DLIST_node_t_el'}
+    return J
+
+
 def with_fallback(j, unwind=8):
     """bounded stand-in used only when the loop contracts no longer fit the code"""
     if not j.anns:
@@ -69,6 +82,12 @@ def jobs(tier):
         j.solver = 'cadical'  # measured: op.ior_and_compl[dabc] 33 s with cadical, 413 s with minisat
         J.append(with_fallback(j, 66 if big else 8))
     J += varr_jobs(tier, (8,) if tier == 'quick' else (1, 8, 16))
+    J += dlist_jobs(tier)
+    hj = Job('htab.do[bounded 2 slots]', 'harness/c19_htab.c', 'h_htab_do', defines=ND, unwind=8, kind='bounded', timeout=600,
+             solver='cadical', bound='table of 2 element slots / 4 index entries, one operation, no rebuild',
+             scope=['hash_f', 'eq_f', 'free_f', 'probe'], no_standard_checks=False)
+    hj.strict_reach = False
+    J.append(hj)
     return J
 
 
